@@ -585,6 +585,29 @@ def D63():
     return "weekly contract on a daily CET grid over the DST switch, price -10 on the 23 h day: value %.2f (fine problem with constant weekly rate: 230.00)" % v
 
 
+@witness
+def D64():
+    tg = A.Timegrid(dt.date(2021, 1, 1), dt.date(2021, 1, 5), freq='h')
+    prices = {'p': np.sin(np.arange(tg.T)), 'q': np.cos(np.arange(tg.T))}
+    a = A.SimpleContract(name='a', nodes=N1, price='p', min_cap=-1, max_cap=1, start=dt.datetime(2021, 1, 3))
+    b = A.SimpleContract(name='b', nodes=N1, price='q', min_cap=-1, max_cap=1, start=dt.datetime(2021, 1, 3))
+    pf = eao.portfolio.Portfolio([a, b])
+    v0 = pf.setup_optim_problem(prices, tg).optimize().value
+    op = pf.setup_split_optim_problem(prices, tg, interval_size='d')
+    r = op.optimize()
+    out = eao.io.extract_output(pf, op, r)
+    return 'both assets start on day 3 of 4: unsplit %.4f, split into days %.4f, dispatch table %s' % (v0, r.value, out['dispatch'].shape)
+
+
+@witness
+def D65():
+    tg = A.Timegrid(dt.date(2021, 3, 28), dt.date(2021, 4, 2), freq='d', main_time_unit='h', timezone='CET')
+    pl = A.Plant(name='p', nodes=[A.Node('power')], price='price', min_cap=0., max_cap=100., ramp=1., last_dispatch=0., time_already_running=1)
+    r = pl.setup_optim_problem({'price': -np.ones(tg.T)}, timegrid=tg).optimize()
+    x = r.x[:tg.T]
+    return 'ramp 1 / h, step lengths %s h: change per step %s (ramp x step length: %s)' % (tg.dt, np.round(np.diff(np.hstack((0, x))), 2), 1. * tg.dt)
+
+
 if __name__ == '__main__':
     which = sys.argv[1:] or list(W)
     for k in which:
